@@ -74,7 +74,11 @@ def oracle(ctx, name, l, u, fl):
 
 def consequences(ctx, rng, name, l, u):
     rep = lambda what, **kw: ctx.impl_violation(f"{name}: {what}", dict(case=name, lattice=zoo.lat_to_json(l), u=u.tolist(), **kw))
+    lat_fp = core.lattice_fingerprint(l)
     base = ff.fluxes_from_ujk(l, u)
+    ff.fluxes_from_ujk(l, u, real=False)
+    if core.lattice_fingerprint(l) != lat_fp:
+        rep("fluxes_from_ujk modified the lattice it was given"); return
     # gauge moves (all vertices on small lattices, a sample otherwise)
     vs = range(l.n_vertices) if l.n_vertices <= 40 else rng.choice(l.n_vertices, 25, replace=False)
     for v in vs:
